@@ -201,8 +201,13 @@ def r8(R, repo):
     c = cfg_of(f)
     nodes = [n for st in stores for n in c.nodes_for(st)]
     col = astu.src(stores[0].targets[0].slice)
-    evid.judge_guard(R, c, nodes, lambda t, _col=col, _g=gout: isinstance(t, ast.Compare) and len(t.ops) == 1 and isinstance(t.ops[0], ast.NotIn) and astu.src(t.left) == _col and astu.src(t.comparators[0]) == _g, key, f,
-                     'a collection may be copied from the incoming broadcast group only when the body did not return it (`if col not in out_group`): otherwise the stale input overrides the fresh output')
+    p_notin = lambda t, _col=col, _g=gout: isinstance(t, ast.Compare) and len(t.ops) == 1 and isinstance(t.ops[0], ast.NotIn) and astu.src(t.left) == _col and astu.src(t.comparators[0]) == _g
+    p_in = lambda t, _col=col, _g=gout: isinstance(t, ast.Compare) and len(t.ops) == 1 and isinstance(t.ops[0], ast.In) and astu.src(t.left) == _col and astu.src(t.comparators[0]) == _g
+    if all(evid.guarded(c, nd, p_in, negative=True) == 'yes' for nd in nodes):
+      R.ok(key, f)   # `if col in out_group: continue` before the store
+    else:
+      evid.judge_guard(R, c, nodes, p_notin, key, f,
+                       'a collection may be copied from the incoming broadcast group only when the body did not return it (`if col not in out_group`): otherwise the stale input overrides the fresh output')
   else:
     R.unsure(key, f, 're-injection of the immutable broadcast collections not recognised')
 
